@@ -325,8 +325,10 @@ fn raw(src: &str, max_steps: u64, acc: &mut Acc) -> Option<(String, String)> {
 }
 
 fn key(src: &str) -> Option<String> {
+    // the minimiser keeps the failure class AND the structural root cause of the candidate, so a
+    // witness cannot drift from one cause into another that happens to share the class
     let mut d = Acc::default();
-    raw(src, 2000, &mut d).map(|x| x.0)
+    raw(src, 2000, &mut d).map(|x| format!("{}#{}", x.0, root_cause(src, &x.0).unwrap_or_default()))
 }
 
 pub fn judge(src: &str, kind: &str, max_steps: u64, acc: &mut Acc) {
@@ -375,7 +377,11 @@ fn root_cause(witness: &str, class: &str) -> Option<String> {
         let ends_cond = nodes.iter().any(|n| {
             n.get_definition() == Df::ElseJump && n.get_right().and_then(|r| nodes.get(r)).map(|r| matches!(r.get_definition(), Df::JumpIfTrue | Df::JumpIfFalse)).unwrap_or(false)
         });
-        if ends_cond {
+        // every else in the witness continues a conditional: an else after anything else is a different defect
+        let proper_chains = nodes.iter().all(|n| {
+            n.get_definition() != Df::ElseJump || n.get_left().and_then(|l| nodes.get(l)).map(|l| matches!(l.get_definition(), Df::JumpIfTrue | Df::JumpIfFalse | Df::ElseJump)).unwrap_or(false)
+        });
+        if ends_cond && proper_chains && !class.contains("depth:2") {
             return Some("else-chain-ends-with-conditional".into());
         }
     }
